@@ -313,6 +313,25 @@ class Array(metaclass=MetaArray):
         # log.debug(f"get size for {cls} from {args}")
         info = Info()
         extra = {}
+        if (
+            len(args) == 1
+            and isinstance(args[0], cls)
+            and not cls._is_static_type
+            and not cls._has_refs
+        ):
+            # binary copy of an existing array: same layout as the source
+            arg = args[0]
+            shape = arg._shape
+            info.size = arg._get_size()
+            info.shape = shape
+            info.dshape = [ii for ii, dd in enumerate(cls._shape) if dd is None]
+            info.order = mk_order(cls._order, shape)
+            info.strides = arg._strides
+            info.offsets = np.array(arg._offsets).reshape(shape)
+            info.extra = extra
+            info.value = arg
+            info.items = np.prod(shape)
+            return info
         if cls._size is not None:
             # static,static array
             if len(args) == 0:
